@@ -767,7 +767,6 @@ theorem expr_om_step (e σ) : OutR σ (Spec.expr cfg (f+1) e σ) := by
         dsimp only
         split <;> om_leaf
 
-/-- what the three loops and blocks do with the signal of the body: stop with some signal, or go on -/
 theorem block_om_step (ss σ) : OutR σ (Spec.block cfg (f+1) ss σ) := by
   cases ss with
   | nil => simp only [Spec.block]; om_leaf
